@@ -4,6 +4,8 @@ CONSTANTS
   NBlk = 3
   Cap = 2
   MaxOps = 9
+  NRes = 0
+  SharedScratch = FALSE
   DrainOnExit = FALSE
 INVARIANTS RaceFree HeapSoundT NoBlockInDeadCache
 CHECK_DEADLOCK FALSE
